@@ -74,6 +74,13 @@ def public_job(job):
     for i, (fmt, dt, custom) in enumerate(dates):
         tb = tables[i % len(tables)]
         tb.write(i, 0, dt)
+        if i % 7 == 3:
+            # the cell had another format before and its display was read once: what counts is the format it has now
+            try:
+                tb.set_cell_formatting(i, 0, "datetime", date_time_format="yyyy-MM-dd")
+                _ = tb.cell(i, 0).formatted_value
+            except Exception:  # noqa: BLE001
+                pass
         try:
             if custom:
                 cf = doc.add_custom_format(name="cf %d %d" % (idx, i), type="datetime", format=fmt)
@@ -176,6 +183,9 @@ def run(ctx):
     for y in (1, 99, 100, 999, 1000, 1900, 2000, 2001, 9999):
         values.append(datetime(y, 12, 31, 0, 0, 0))
         values.append(datetime(y, 1, 1, 12, 30, 45, 999999))
+    # the library's date epoch and its neighbours: the stored number is 0 there (a date like any other), and small around it
+    zero_dates = [datetime(2001, 1, 1, 0, 0, 0), datetime(2001, 1, 1, 0, 0, 1), datetime(2000, 12, 31, 23, 59, 59), datetime(2001, 1, 1, 0, 0, 0, 1000)]
+    values += zero_dates
     events = []
     for dt in values:
         for f in DIRECTIVES:
@@ -208,6 +218,9 @@ def run(ctx):
             pub.append((f, dt, False))
     for fmt, dt in comps[: (150 if q else 2000)]:
         pub.append((fmt, dt, "'" in fmt))
+    for f in rng.sample(DIRECTIVES, 8 if q else len(DIRECTIVES)):
+        for dt in zero_dates:
+            pub.append((f, dt, False))
     ctx.stage("durations")
     durs = []
     unit_ms = {1: 604800000, 2: 86400000, 4: 3600000, 8: 60000, 16: 1000, 32: 1}
